@@ -1,5 +1,59 @@
 /- C09 extension (Smb family): theorems model = specification. -/
+import RelicVerif.Lemmas.NtSmb
+import RelicVerif.Lemmas.NtSmbPrime
 
 namespace Relic.Props.C09
+open Relic.Model
+
+/-- The single-digit binary loop of bn_smb_jac (the `i == 1` path: swap with `t ^= n & d`, subtract and halve with
+    `t ^= d ^ (d >> 1)`, strip `z` trailing zeros with `t ^= (d ^ (d >> 1)) & (z << 1)`, final `d == 1 ? 1 - (t & 2) : 0`),
+    stated on unbounded naturals: for every n, every ODD d and every starting word t the result is
+    (-1)^(bit 1 of t) · (n / d) — Mathlib's Jacobi symbol. -/
+theorem smb_jac_single_exact (n d t : ℕ) (hd : d % 2 = 1) :
+    NtSmb.jacSingle n d t = (if t.testBit 1 then -1 else 1) * jacobiSym (n : ℤ) d :=
+  Relic.Lemmas.NtSmb.jacSingle_eq n d t hd
+
+/-- with the initial t = 0 of bn_smb_jac: the loop returns the Jacobi symbol itself -/
+theorem smb_jac_single_exact_zero (n d : ℕ) (hd : d % 2 = 1) : NtSmb.jacSingle n d 0 = jacobiSym (n : ℤ) d := by
+  rw [smb_jac_single_exact n d 0 hd]; simp
+
+/- Full statement (NOT proved; what is missing is the multi-digit reduction step: that the 2x2 matrix accumulated on the
+   approximations moves the TRUE pair (t0, t1) by the same elementary moves — swap / subtract / halve — up to the sign of the
+   results, with the t updates read from low bits that agree with the true ones, that the combination is exactly divisible by 2^s,
+   that `t ^= t1->dp[0]` accounts for (-1 / t1) when t0 came out negative, and termination of the outer loop):
+
+   theorem smb_jac_exact (w : ℕ) (a b : ℤ) (hw : 8 ≤ w) (hb : 0 < b) (hodd : b % 2 = 1) :
+       NtSmb.jac w a b = some (jacobiSym a b.toNat)
+-/
+
+/-- bn_smb_jac (the whole model: a mod b, outer loop, single-digit path) returns the Jacobi symbol (a / b) for every integer a and
+    every odd positive b that fits one digit of width w. -/
+theorem smb_jac_exact_partial (w : ℕ) (a b : ℤ) (hw : 0 < w) (hb : 0 < b) (hodd : b % 2 = 1) (hlt : b < 2 ^ w) :
+    NtSmb.jac w a b = some (jacobiSym a b.toNat) :=
+  Relic.Lemmas.NtSmb.jac_one_digit w a b hw hb hodd hlt
+
+/-- the error test is exactly "b even or negative" -/
+theorem smb_jac_err_iff (b : ℤ) : NtSmb.jacErr b = true ↔ (b % 2 = 0 ∨ b < 0) := by
+  simp [NtSmb.jacErr]
+
+example : (0 : ℤ) < 15 ∧ (15 : ℤ) % 2 = 1 ∧ (15 : ℤ) < 2 ^ 8 := by decide
+
+/-- the square-and-multiply used for bn_mxp inside the model is the mathematical power -/
+theorem prime_rabin_powMod (b e n : ℕ) : NtSmbPrime.powMod b e n = b ^ e % n :=
+  Relic.Lemmas.NtSmbPrime.powMod_eq b e n
+
+/-- bn_is_prime_rabin accepts EVERY prime (no further hypothesis: the primes that occur among the bases, and the primes below them,
+    are accepted through the early exit `base ≥ n - 1`, all others by Fermat + "the square roots of 1 in a field are ±1"). -/
+theorem prime_rabin_complete (n : ℕ) (hp : n.Prime) : NtSmbPrime.rabin (n : ℤ) = true :=
+  Relic.Lemmas.NtSmbPrime.rabin_prime n hp
+
+/-- inputs below 2 and even inputs other than 2 are rejected -/
+theorem prime_rabin_small (a : ℤ) (h : a < 2 ∨ (a ≠ 2 ∧ a % 2 = 0)) : NtSmbPrime.rabin a = false := by
+  unfold NtSmbPrime.rabin
+  rcases h with h | ⟨h1, h2⟩
+  · simp [h]
+  · by_cases h0 : a < 2
+    · simp [h0]
+    · simp [h0, h1, h2]
 
 end Relic.Props.C09
